@@ -270,6 +270,9 @@ class Session:
             return ["", val]
         except Exception as e:          # the exception CLASS is the result
             n = exc_name(e)
+            if self.mode == "tcp" and n in ("ConnectionReset", "ConnectionError", "ConnectionTimeout", "SocketConnectionError"):
+                # the loopback socket failed (overloaded machine): not an answer of the smart server
+                raise core.MachineryError("loopback TCP connection failed during %s: %s" % (a, e)) from e
             return [ERR_EQUIV.get(op, {}).get(n, n), []]
 
     def _do(self, op, a):
